@@ -236,6 +236,22 @@ func TestC11(t *testing.T) {
 		}
 		pktRecord(w, res, ty, bin, d, rng.Intn(2) == 0)
 	}
+	// large packets: the base64 path over text transports and the raw path, around internal buffer sizes
+	bigSizes := []int{1000, 1023, 1024, 1025, 2047, 2048, 2049, 3000, 3071, 3072, 3073, 4095, 4096, 4097, 4098, 5000, 8191, 8192, 8193, 12287, 12288, 12289, 16384, 16385}
+	if vres.Tier() == "thorough" {
+		bigSizes = append(bigSizes, 20000, 32767, 32768, 32769, 49152, 49153, 65535, 65536, 65537)
+	}
+	for _, n := range bigSizes {
+		d := make([]byte, n)
+		rng.Read(d)
+		for _, sb := range []bool{false, true} {
+			pktRecord(w, res, 4, true, d, sb)
+		}
+		pktRecord(w, res, 4, false, bytes.ReplaceAll(d, []byte{30}, []byte{31}), false)
+		if n <= 5000 {
+			payloadRecord(w, res, []*parser.Packet{mk(4, true, d), mk(4, false, []byte("x")), mk(4, true, d[:n/2])})
+		}
+	}
 	res.Count("pkt_payload_records", w.Lines())
 
 	// frames
